@@ -19,6 +19,7 @@ func init() {
 			"LP-ERRPATH: every stage that flags __error__ (typed label filters, extractors, line_format) returns the unchanged line, kept, on its failing paths",
 			"CH-MAP builder tables incl. and/or predicate; templates are compiled per stage instance",
 			"labels are cleared per record; limit plumbing",
+			"CH-MAP the docker storage declares no line-filter capability (|= and != are decided by the engine on the record body)",
 		},
 		NotDecided: []string{"strings.Contains(s, \"\") being true (library semantics)", "regexp engine semantics"},
 		Rules: func(r *Run) {
@@ -49,6 +50,7 @@ func init() {
 			ruleTemplateBinding(r)
 			ruleSetClearedPerRecord(r)
 			ruleLimit(r)
+			ruleDockerMatch(r) // the storage advertises label capabilities only: line filters are evaluated by the engine, on the message
 		},
 	})
 }
